@@ -17,7 +17,7 @@ open SLV.Props.C10 (BWF)
 variable {f : Fmt}
 
 /-- well-formed rational binomial simplex (a conditional opinion `y|x` without base rate) -/
-structure SWF (b d u : ℚ) : Prop where
+structure SWF3 (b d u : ℚ) : Prop where
   hb : 0 ≤ b
   hd : 0 ≤ d
   hu : 0 ≤ u
@@ -32,8 +32,8 @@ structure Dom14 (b d u a b0 d0 u0 b1 d1 u1 ay : ℚ) : Prop where
   ha1 : a < 1
   hP0 : 0 < b + a * u
   hP1 : b + a * u < 1
-  c0 : SWF b0 d0 u0
-  c1 : SWF b1 d1 u1
+  c0 : SWF3 b0 d0 u0
+  c1 : SWF3 b1 d1 u1
   hy0 : 0 < ay
   hy1 : ay < 1
 
@@ -216,7 +216,7 @@ theorem case_split (b0 d0 b1 d1 : ℚ) :
 
 /-- the belief and disbelief of the result are non-negative (they dominate a convex combination of
     the conditionals' components) -/
-theorem res_nonneg (hx : BWF b d u a) (h0 : SWF b0 d0 u0) (h1 : SWF b1 d1 u1)
+theorem res_nonneg (hx : BWF b d u a) (h0 : SWF3 b0 d0 u0) (h1 : SWF3 b1 d1 u1)
     (hy0 : 0 < ay) (hy1 : ay < 1) :
     0 ≤ mixq b d u a b0 b1 - ay * Kq u a b0 d0 b1 d1 ay ∧
     0 ≤ mixq b d u a d0 d1 - (1 - ay) * Kq u a b0 d0 b1 d1 ay := by
@@ -243,7 +243,7 @@ theorem res_nonneg (hx : BWF b d u a) (h0 : SWF b0 d0 u0) (h1 : SWF b1 d1 u1)
     constructor <;> linarith
 
 /-- the closed-form result is a well-formed binomial opinion -/
-theorem res_bwf (hx : BWF b d u a) (h0 : SWF b0 d0 u0) (h1 : SWF b1 d1 u1)
+theorem res_bwf (hx : BWF b d u a) (h0 : SWF3 b0 d0 u0) (h1 : SWF3 b1 d1 u1)
     (hy0 : 0 < ay) (hy1 : ay < 1) :
     BWF (mixq b d u a b0 b1 - ay * Kq u a b0 d0 b1 d1 ay)
       (mixq b d u a d0 d1 - (1 - ay) * Kq u a b0 d0 b1 d1 ay)
